@@ -97,9 +97,8 @@ def main():
     # ---------------------------------------------------------------- (c,d,f) UBI -> metric -> cell copies; UB = inverse
     def run_ubi():
         u = sym_ubi(); goals = []
-        g = GR.grain.__new__(GR.grain); g.ubi = u; g.translation = None
         with symbolize(GR):
-            GR.grain.clear_cache(g)
+            g = GR.grain(u)                # through the real constructor (set_ubi / clear_cache)
             mt = g.mt; cellG = g.unitcell; UB = g.UB
         mt_ref = np.dot(u, u.T)
         for i in range(3):
@@ -146,6 +145,26 @@ def main():
         with symbolize(GR): rmt = g.rmt
         RM = np.dot(rmt, M)
         return dict(goals=[("grain.rmt . mt = I [%d%d]" % (i, j), T(RM[i, j]) == (1 if i == j else 0)) for i in range(3) for j in range(3)], inputs={"u%d%d" % (i, j): T(u[i, j]) for i in range(3) for j in range(3)})
+    # the grain object is a history: after set_ubi every cached quantity must be that of a freshly constructed grain
+    def run_grain_history():
+        ua = sym_ubi("ua"); ub = sym_ubi("ub")
+        with symbolize(GR), symbolize(UC, extra=[(UC, "inv", inv3)]):
+            g = GR.grain(ua); names = ("UB", "B", "U", "mt", "rmt", "unitcell")
+            first = [getattr(g, n) for n in names]           # fill every cache
+            g.set_ubi(ub); got = [getattr(g, n) for n in names]
+            f = GR.grain(ub); want = [getattr(f, n) for n in names]
+        goals = []
+        for n, a, b in zip(names, got, want):
+            a = np.asarray(a, dtype=object).ravel(); b = np.asarray(b, dtype=object).ravel()
+            goals += [("after set_ubi: grain.%s = that of a fresh grain [%d]" % (n, k), T(a[k]) == T(b[k])) for k in range(len(a))]
+        return dict(goals=goals, inputs={"u%d%d" % (i, j): T(ub[i, j]) for i in range(3) for j in range(3)})
+    def replay_grain_history(vals, label):
+        u1 = np.array([[3.0, 0.3, 0.0], [-0.2, 4.0, 0.5], [0.1, 0.0, 5.0]]); u2 = np.array([[4.1, 0.0, 0.2], [0.3, 3.7, 0.0], [-0.4, 0.1, 4.9]])
+        g = GR.grain(u1); names = ("UB", "B", "U", "mt", "rmt", "unitcell"); _ = [getattr(g, n) for n in names]; g.set_ubi(u2); f = GR.grain(u2)
+        for n in names:
+            if not np.allclose(getattr(g, n), getattr(f, n), rtol=1e-12, atol=1e-12): return True, "grain.%s after set_ubi is %s, a fresh grain gives %s" % (n, np.round(getattr(g, n), 6).tolist(), np.round(getattr(f, n), 6).tolist())
+        return False, "after set_ubi the real grain answers like a fresh one"
+    jobs.append(("grain-set_ubi-history", run_grain_history, dict(replay=replay_grain_history, timeout_ms=tmo, budget_s=240, keyfn=lambda n, l: "grain.py:set_ubi:stale-cache:" + l.split("grain.")[1].split(" ")[0])))
     jobs.append(("rmt", run_rmt, dict(replay=replay_ubi, timeout_ms=tmo, keyfn=lambda n, l: "UBI-copies:rmt")))
     jobs.append(("UBI-metric-cell", run_ubi, dict(replay=replay_ubi, timeout_ms=tmo, keyfn=lambda n, l: "UBI-copies:" + l.split("[")[0].split(".")[0])))
 
@@ -157,9 +176,9 @@ def main():
         mt = np.dot(u, u.T); lem = np.dot(np.dot(Bf.T, Bf), mt)        # lemma (b)+(c): B^T B . mt = I
         for i in range(3):
             for j in range(3): CTX.hyp.append(T(lem[i, j]) == (1 if i == j else 0))
-        g = GR.grain.__new__(GR.grain); g.ubi = u; g.translation = None
-        GR.grain.clear_cache(g); g._B = Bf
-        with symbolize(GR): U = g.U; UB = g.UB
+        with symbolize(GR):
+            g = GR.grain(u); g._B = Bf     # real constructor; B replaced by the abstracted matrix of the lemma
+            U = g.U; UB = g.UB
         UtU = np.dot(U.T, U); UBr = np.dot(U, Bf)
         goals = [("U^T U = I [%d%d]" % (i, j), T(UtU[i, j]) == (1 if i == j else 0)) for i in range(3) for j in range(i, 3)]
         goals += [("U . B = UB = inverse(ubi) [%d%d]" % (i, j), T(UBr[i, j]) == T(UB[i, j])) for i in range(3) for j in range(3)]
